@@ -81,7 +81,7 @@ PROPS = {
     },
     'C12': {
         'level': 'proof',
-        'explanation': 'Each built-in aggregator body (two lambdas and four nested functions of Table.aggregate, extracted with their closures) equals its textbook spec on an arbitrary group; Vector.sum/mean/min/max/stdev equal the same spec functions (whole-column agreement by construction). The partition loop is under a discharged quantified invariant (every row in exactly one bucket, buckets ascending, keys in first-appearance order; arbitrary rows, one key column); and the result assembly is proved for an arbitrary group (exit assertion on the real text: one row per distinct key in first-appearance order, key column = the keys, value column = the aggregator's spec applied to exactly the rows of the key's bucket; SUM in the quick tier, MEAN / MIN / MAX / COUNT in the thorough tier; one key column, one aggregated column, rows unbounded). STDEV assembly, several keys / columns, custom `apply` functions and output naming are bounded only.',
+        'explanation': 'Each built-in aggregator body (two lambdas and four nested functions of Table.aggregate, extracted with their closures) equals its textbook spec on an arbitrary group; Vector.sum/mean/min/max/stdev equal the same spec functions (whole-column agreement by construction). The partition loop is under a discharged quantified invariant (every row in exactly one bucket, buckets ascending, keys in first-appearance order; arbitrary rows, one key column); and the result assembly is proved for an arbitrary group (exit assertion on the real text: one row per distinct key in first-appearance order, key column = the keys, value column = the spec of the aggregator applied to exactly the rows of the bucket of that key; SUM in the quick tier, MEAN / MIN / MAX / COUNT in the thorough tier; one key column, one aggregated column, rows unbounded). STDEV assembly, several keys / columns, custom `apply` functions and output naming are bounded only.',
         'trusted': ['sum/min/max/len uninterpreted; A-real'],
     },
     'C13': {
